@@ -39,7 +39,7 @@ pub struct Case {
 
 pub struct C06;
 
-pub const KINDS: [&str; 14] = [
+pub const KINDS: [&str; 15] = [
     "honest",
     "flip-filter-bit",
     "filter-of-another-block",
@@ -54,6 +54,7 @@ pub const KINDS: [&str; 14] = [
     "hash-of-fork-block",
     "hash-outside-batch",
     "swap-two-hashes",
+    "hash-of-unproved-last-state",
 ];
 
 impl Property for C06 {
@@ -79,7 +80,7 @@ impl Property for C06 {
             Tier::Quick => 110u16,
             Tier::Thorough => 300u16,
         };
-        let attack = (0u8..12, 0u8..14, any::<u16>(), any::<u64>(), prop_oneof![6 => Just(0u8), 2 => Just(1u8), 1 => Just(2u8)], prop::bool::weighted(0.12))
+        let attack = (0u8..12, 0u8..15, any::<u16>(), any::<u64>(), prop_oneof![6 => Just(0u8), 2 => Just(1u8), 1 => Just(2u8)], prop::bool::weighted(0.12))
             .prop_map(|(lead, kind, pos, val, from, restart_unsolicited)| Attack { lead, kind, pos, val, from, restart_unsolicited });
         (chain_params(maxlen), net_params(), prop::collection::vec(reg_spec(), 1..3), any::<bool>(), prop::collection::vec(attack, 1..5))
             .prop_map(|(mut chain, mut net, mut initial, bad_hash_peer, attacks)| {
@@ -247,6 +248,7 @@ impl Property for C06 {
             let mut filters: Vec<packed::Bytes> = honest.filters().into_iter().collect();
             let mut hashes: Vec<Byte32> = honest.block_hashes().into_iter().collect();
             let mut start_n = start;
+            let mut announce_fork_tip = false;
             let n = filters.len();
             let i = idx(a.pos, n.max(1));
             let kind = KINDS[a.kind as usize % KINDS.len()];
@@ -289,8 +291,14 @@ impl Property for C06 {
                         hashes.swap(i, (i + 1) % n);
                     }
                 }
+                "hash-of-unproved-last-state" => {
+                    // the substituted hash is a header the asked peer has ANNOUNCED (its last state) but not proven
+                    announce_fork_tip = true;
+                    hashes[i] = fork.blocks[fork.tip() as usize].hash();
+                }
                 _ => {}
             }
+
             // does the batch cover in-range activity of a registered script?
             let covers_activity = (start..start + n as u64).any(|h| {
                 regs.iter().any(|r| r.in_range(h) && c.cells.values().any(|ci| (ci.block == h || ci.spent_at.map(|s| s.0 == h).unwrap_or(false)) && r.matches(&ci.output)))
@@ -306,11 +314,35 @@ impl Property for C06 {
                 }
                 _ => sim.w.connected_peers().iter().map(|p| p.index).find(|p| *p != asked).unwrap_or(asked),
             };
+            if announce_fork_tip {
+                let t = fork.tip();
+                let bytes = crate::lcv::sim::server::wrap_lc(packed::SendLastState::new_builder().last_header(fork.verifiable_header(t)).build()).as_bytes();
+                sim.w.deliver(SupportProtocols::LightClient, asked, bytes);
+                if let Some(l) = ended_by_ban(&sim.w) {
+                    obs.label(l);
+                    return finish(Ok(()));
+                }
+            }
             let before = sim.w.storage().get_min_filtered_block_number();
+            let proved_before: BTreeSet<Byte32> = crate::lcv::sim::world::matched_blocks_keys(&sim.w).into_iter().filter(|(_, v)| v.0).map(|(h, _)| h.pack()).collect();
             let interval = sim.w.cfg.interval;
             sim.w.deliver(SupportProtocols::Filter, sender, msg.as_bytes());
             let after = sim.w.storage().get_min_filtered_block_number();
             obs.label(format!("attack:{}", kind));
+            // a BlockFilters message carries no proof of any block: afterwards a matched block may be flagged as proved only
+            // if it is the proven last header of some peer
+            {
+                let proven: BTreeSet<Byte32> = sim.w.connected_peers().iter().filter_map(|p| sim.w.c().peers.get_state(&p.index).and_then(|s| s.get_prove_state().map(|ps| ps.get_last_header().header().hash()))).collect();
+                for (h, (proved, _)) in crate::lcv::sim::world::matched_blocks_keys(&sim.w) {
+                    let hb: Byte32 = h.pack();
+                    if proved && !proven.contains(&hb) && !proved_before.contains(&hb) {
+                        return finish(Err(Failure::new(
+                            format!("matched-block-flagged-as-proved-by-a-BlockFilters-message/{}", kind),
+                            format!("{} at position {} of batch starting {}: block {:#x} is marked proved although no peer has proven it", kind, i, start, hb),
+                        )));
+                    }
+                }
+            }
             let desc = format!("{} at position {} of batch [{}, {}) delivered as start {} by {:?} (asked {:?}); min_filtered {} -> {}", kind, i, start, start + n as u64, start_n, sender, asked, before, after);
             if after > before {
                 // accepted prefix: heights before+1 ..= after
@@ -332,7 +364,9 @@ impl Property for C06 {
                     let real = c.blocks[h as usize].hash();
                     let has_activity = regs.iter().any(|r| r.in_range(h) && c.cells.values().any(|ci| (ci.block == h || ci.spent_at.map(|s| s.0 == h).unwrap_or(false)) && r.matches(&ci.output)));
                     if has_activity && listed != Some(&real) {
-                        return finish(tolerate(obs, Failure::new(format!("substituted-block-hash-accepted/{}", kind), format!("{} :: height {} listed {:?}", desc, h, listed.map(|x| format!("{:#x}", x))))));
+                        // the announced-but-unproven header is a block of the competing fork: same defect, same signature as "hash-of-fork-block"
+                        let sig_kind = if kind == "hash-of-unproved-last-state" { "hash-of-fork-block" } else { kind };
+                        return finish(tolerate(obs, Failure::new(format!("substituted-block-hash-accepted/{}", sig_kind), format!("{} :: height {} listed {:?}", desc, h, listed.map(|x| format!("{:#x}", x))))));
                     }
                 }
             }
